@@ -115,6 +115,13 @@ class TerminalFinal(Monitor):
         if g["term"] is None:
             if status in TERMINAL:
                 g["term"] = status
+            at_answer = res.extra.get("status_at_answer")
+            if op == "dispatch" and res.offers and at_answer in TERMINAL:
+                # the very answer that left the workflow in a terminal status carries offers
+                extra = [o["id"] for o in res.offers if not (at_answer == st.FAILED and o["id"] in self.cleanup)]
+                if extra:
+                    return [{"kind": "offer_with_terminal_status", "sig": {"terminal": at_answer},
+                             "detail": {"offered": extra}}]
             return []
         T = g["term"]
         self.stats["post_terminal_steps"] += 1
